@@ -345,7 +345,14 @@ class Engine:
         s = self.P.solver
         x = None if extra is True else extra
         if x is not None and not z3.is_expr(x): x = z3.BoolVal(bool(x))
-        if full: r, m, why = s.full_model(x)
+        if full:
+            # counterexample extraction: prefer models with short strings so that they can be realised natively
+            strs = [t for (k, t) in self.P.nondets.values() if k == 'str' and not isinstance(t, str)]
+            for bound in (40, 600, None):
+                if bound is None or not strs: r, m, why = s.full_model(x); break
+                small = z3.And([z3.ULE(slen(t), bound) for t in strs])
+                r, m, why = s.full_model(small if x is None else z3.And(x, small))
+                if r == z3.sat: break
         else: r, m, why = s.check(x)
         self.stats['queries'] += 1; self.stats['solver_s'] += time.time() - t
         if r == z3.unknown:
